@@ -227,10 +227,16 @@ class CommitGraph:
 
         # Read chunks
         # Offsets in TOC are absolute from start of file
+        file_size = f.seek(0, os.SEEK_END)
         for i in range(num_chunks):
             chunk_id, offset = toc_entries[i]
             next_offset = toc_entries[i + 1][1]
             chunk_size = next_offset - offset
+            if chunk_size < 0 or next_offset > file_size:
+                raise ValueError(
+                    f"Invalid offsets for chunk {chunk_id!r}: "
+                    f"{offset}..{next_offset} in a file of {file_size} bytes"
+                )
 
             f.seek(offset)
             chunk_data = f.read(chunk_size)
